@@ -15,6 +15,17 @@ package streams
 //         chosen call; the failing commit reports it, Engine.Catalog() is unchanged, a following insert
 //         succeeds, is visible and persisted.
 //
+//
+// Corpus (runs first, every time):
+//   (v)   counterexample search on the CURRENT protocol: the step list regenerated from /repo/dbkit/atomic.go by
+//         cmd/extract (Gen/AtomicWrite.json) is sent to the model op fs.search with several content shapes
+//         (old absent / small / large; new smaller, larger, empty, multi-chunk; with and without a stale temp).
+//         The op runs the model interpreter on THAT list over every cut k × no fault / single fault × process
+//         kill and every power-loss image; a counterexample (a concrete crash scenario on which the file is
+//         neither old nor new, an acknowledged commit is lost, a failed run changed the file, or a re-run
+//         fails) is a violation with witness model-ce:<kind>. The same shapes are sent with the EXPECTED list
+//         as a model comparison (must be safe).
+//
 // If strace (ptrace) is not permitted, the case is tagged strace_unavailable and (i),(ii) are skipped.
 
 import (
@@ -781,12 +792,253 @@ func crashCase(r *gen.R, idx int) []run.Case {
 	return cases
 }
 
+// ---------- (v) counterexample search on the regenerated protocol ----------
+
+// genDir is the directory the extractor wrote to: LUNGO_GEN_DIR, or lean/Lungo/Gen next to the model binary
+// (<lean>/.lake/build/bin/lungo_model).
+func genDir() string {
+	if d := os.Getenv("LUNGO_GEN_DIR"); d != "" {
+		return d
+	}
+	return filepath.Join(filepath.Dir(model.Path()), "..", "..", "..", "Lungo", "Gen")
+}
+
+type searchShape struct {
+	Name   string
+	Old    []byte // nil = no file
+	Chunks [][]byte
+	Stale  bool
+}
+
+func patternBytes(n, seed int) []byte {
+	b := make([]byte, n)
+	for i := range b {
+		b[i] = byte((i*7 + seed*31 + i/251) % 256)
+	}
+	return b
+}
+
+// searchShapes: the shapes of Lean's AtomicSearch.shapes (model op fs.shapes; theorem search_expected_safe) plus larger ones.
+func searchShapes() ([]searchShape, error) {
+	reply, err := askModel(`{"op":"fs.shapes"}`)
+	if err != nil {
+		return nil, err
+	}
+	var m struct {
+		Ok []struct {
+			Old    *string  `json:"old"`
+			Chunks []string `json:"chunks"`
+			Stale  bool     `json:"stale"`
+		} `json:"ok"`
+	}
+	if json.Unmarshal([]byte(reply), &m) != nil || len(m.Ok) == 0 {
+		return nil, fmt.Errorf("fs.shapes: %s", reply)
+	}
+	var out []searchShape
+	for i, sh := range m.Ok {
+		s := searchShape{Name: fmt.Sprintf("lean%d", i), Stale: sh.Stale}
+		if sh.Old != nil {
+			s.Old, _ = hex.DecodeString(*sh.Old)
+			if s.Old == nil {
+				s.Old = []byte{}
+			}
+		}
+		for _, c := range sh.Chunks {
+			b, _ := hex.DecodeString(c)
+			s.Chunks = append(s.Chunks, b)
+		}
+		out = append(out, s)
+	}
+	out = append(out,
+		searchShape{Name: "absent_multichunk_stale", Old: nil, Chunks: [][]byte{{1, 2}, {3, 4, 5}}, Stale: true},
+		searchShape{Name: "empty_new", Old: []byte{1, 2}, Chunks: nil, Stale: false},
+		searchShape{Name: "large_to_smaller", Old: patternBytes(6000, 1), Chunks: [][]byte{patternBytes(2500, 2)}, Stale: true},
+		searchShape{Name: "small_to_large_3chunks", Old: patternBytes(40, 3), Chunks: [][]byte{patternBytes(3000, 4), patternBytes(3000, 5), patternBytes(700, 6)}, Stale: false},
+		searchShape{Name: "absent_to_large", Old: nil, Chunks: [][]byte{patternBytes(9000, 7)}, Stale: true},
+	)
+	return out, nil
+}
+
+func searchReq(steps string, tmp string, sh searchShape) string {
+	chunks := make([]string, len(sh.Chunks))
+	for i, c := range sh.Chunks {
+		chunks[i] = `"` + hex.EncodeToString(c) + `"`
+	}
+	return fmt.Sprintf(`{"op":"fs.search","steps":%s,"tmp":%q,"old":%s,"chunks":[%s],"stale":%v}`, steps, tmp, hexOrNull(sh.Old), strings.Join(chunks, ","), sh.Stale)
+}
+
+type searchCE struct {
+	Kind  string `json:"kind"`
+	K     int    `json:"k"`
+	Fault *struct {
+		Call  int `json:"call"`
+		Bytes int `json:"bytes"`
+	} `json:"fault"`
+	Image      string   `json:"image"`
+	Mask       []bool   `json:"mask"`
+	PendingOps []string `json:"pendingOps"`
+	TmpBytes   *struct {
+		Len     int  `json:"len"`
+		Garbage bool `json:"garbage"`
+	} `json:"tmpBytes"`
+	TmpPending int      `json:"tmpPending"`
+	Loads      *string  `json:"loads"`
+	Finished   bool     `json:"finished"`
+	Err        bool     `json:"err"`
+	Trace      []string `json:"trace"`
+}
+
+type searchReply struct {
+	Ok              string    `json:"ok"`
+	Explored        int       `json:"explored"`
+	CE              *searchCE `json:"ce"`
+	Unrepresentable string    `json:"unrepresentable"`
+	Bad             string    `json:"bad"`
+}
+
+func abbrevHex(h string) string {
+	if len(h) > 48 {
+		return fmt.Sprintf("%s…(%d bytes)", h[:48], len(h)/2)
+	}
+	return h
+}
+
+// describeCE renders the crash scenario of a counterexample in words.
+func describeCE(ce *searchCE) string {
+	var sb strings.Builder
+	what := map[string]string{
+		"notOldOrNew":   "the store file loads as neither the old nor the new content",
+		"ackedLost":     "AtomicWriteFile had returned nil, yet the file does not load as the new content",
+		"failedChanged": "AtomicWriteFile returned an error, yet the file no longer shows the old content",
+		"rerunFails":    "a following fault-free AtomicWriteFile on this state fails or does not leave the new content",
+	}[ce.Kind]
+	sb.WriteString(what + ": ")
+	if ce.Fault != nil {
+		fmt.Fprintf(&sb, "system call #%d fails (a write after %d bytes); ", ce.Fault.Call, ce.Fault.Bytes)
+	}
+	state := "still running"
+	if ce.Finished && ce.Err {
+		state = "returned an error"
+	} else if ce.Finished {
+		state = "returned nil"
+	}
+	fmt.Fprintf(&sb, "after %d system calls [%s] (function %s) ", ce.K, strings.Join(ce.Trace, " "), state)
+	if ce.Image == "kill" {
+		sb.WriteString("the process dies (no data lost)")
+	} else {
+		var kept, lost []string
+		for i, op := range ce.PendingOps {
+			if i < len(ce.Mask) && ce.Mask[i] {
+				kept = append(kept, op)
+			} else {
+				lost = append(lost, op)
+			}
+		}
+		fmt.Fprintf(&sb, "power is lost: pending directory operations kept [%s], lost [%s]", strings.Join(kept, "; "), strings.Join(lost, "; "))
+		if ce.TmpBytes != nil && ce.TmpPending > 0 {
+			fmt.Fprintf(&sb, ", %d of the new file's %d un-synced bytes reach the disk", ce.TmpBytes.Len, ce.TmpPending)
+			if ce.TmpBytes.Garbage {
+				sb.WriteString(" as garbage")
+			}
+		}
+	}
+	if ce.Loads == nil {
+		sb.WriteString("; the store file is then absent")
+	} else if *ce.Loads == "" {
+		sb.WriteString("; the store file is then empty")
+	} else {
+		sb.WriteString("; the store file then holds " + abbrevHex(*ce.Loads))
+	}
+	return sb.String()
+}
+
+// searchCorpus: fixed cases (v).
+func searchCorpus() []run.Case {
+	var cases []run.Case
+	shapes, err := searchShapes()
+	if err != nil {
+		return []run.Case{{Impl: `{"search":"model-failed"}`, Tags: []string{"model_search:model_failed"}}}
+	}
+	// the expected protocol must be safe (model comparison: a counterexample here is a defect of the model/search)
+	for _, sh := range shapes {
+		cases = append(cases, run.Case{
+			Req:        searchReq(`"expected"`, "path+.tmp", sh),
+			Impl:       `{"ok":"safe"}`,
+			Nontrivial: true,
+			Tags:       []string{"model_search_expected", "search_shape:" + sh.Name},
+			Accept: func(reply string) bool {
+				var r searchReply
+				return json.Unmarshal([]byte(reply), &r) == nil && r.Ok == "safe" && r.Explored > 0
+			},
+		})
+	}
+	// the regenerated protocol
+	file := filepath.Join(genDir(), "AtomicWrite.json")
+	raw, err := os.ReadFile(file)
+	var gen struct {
+		Tmp   string          `json:"tmp"`
+		Steps json.RawMessage `json:"steps"`
+	}
+	if err != nil || json.Unmarshal(raw, &gen) != nil || len(gen.Steps) == 0 {
+		// no regenerated list (the extractor did not run or failed: the check reports that itself)
+		return append(cases, run.Case{Impl: `{"search":"no regenerated step list"}`, Tags: []string{"model_search:no_steps_file"}})
+	}
+	var compact bytes.Buffer
+	if json.Compact(&compact, gen.Steps) != nil {
+		return append(cases, run.Case{Impl: `{"search":"bad step list"}`, Tags: []string{"model_search:no_steps_file"}})
+	}
+	steps := compact.String()
+	for _, sh := range shapes {
+		req := searchReq(steps, gen.Tmp, sh)
+		reply, err := askModel(req)
+		var r searchReply
+		if err != nil || json.Unmarshal([]byte(reply), &r) != nil {
+			cases = append(cases, run.Case{Impl: `{"search":"model-failed"}`, Tags: []string{"model_search:model_failed"}})
+			continue
+		}
+		short := fmt.Sprintf(`{"op":"fs.search","steps":"regenerated","tmp":%q,"shape":%q}`, gen.Tmp, sh.Name)
+		switch {
+		case r.CE != nil:
+			ceJSON, _ := json.Marshal(r.CE)
+			cases = append(cases, run.Case{
+				Impl:       short + ` => {"ce":` + strconv.Quote(r.CE.Kind) + `}`,
+				Nontrivial: true,
+				Tags:       []string{"model_search:ce:" + r.CE.Kind, "search_shape:" + sh.Name},
+				Viols: []run.Violation{{
+					Property: "C05",
+					What:     "crash scenario on the CURRENT AtomicWriteFile protocol (model search on the regenerated step list): " + describeCE(r.CE),
+					Witness:  "model-ce:" + r.CE.Kind,
+					Req:      req,
+					Detail:   string(ceJSON),
+				}},
+			})
+		case r.Ok == "safe":
+			cases = append(cases, run.Case{
+				Impl:       fmt.Sprintf(`%s => {"ok":"safe","explored":%d}`, short, r.Explored),
+				Nontrivial: true,
+				Tags:       []string{"model_search:safe", "search_shape:" + sh.Name},
+			})
+		case r.Unrepresentable != "":
+			// a call outside the model's vocabulary: Gen/AtomicWrite.lean does not compile either (loud failure of the tie)
+			cases = append(cases, run.Case{
+				Impl: short + ` => {"unrepresentable":` + strconv.Quote(r.Unrepresentable) + `}`,
+				Tags: []string{"model_search:unrepresentable:" + r.Unrepresentable},
+			})
+		default:
+			cases = append(cases, run.Case{Impl: short + ` => ` + reply, Tags: []string{"model_search:model_failed"}})
+		}
+	}
+	return cases
+}
+
 func init() {
 	run.Register(&run.Stream{
 		Name: "crash",
 		Rule: "histories of 1..3 commits (InsertOne) on a FileStore in a fresh temp dir, with/without a stale .tmp; per commit: strace conformance of a real writer process, " +
 			"SIGKILL at the entry of every traced system call then real Load (+ in-process re-commit), model-enumerated power-loss images for every k then real Load, " +
-			"and a wrapped Store failing (error / error after write / panic) on a chosen call; non-trivial = kill landed inside the commit, image with 1 ≤ k < end, or fault scenario ran",
+			"and a wrapped Store failing (error / error after write / panic) on a chosen call; non-trivial = kill landed inside the commit, image with 1 ≤ k < end, or fault scenario ran; " +
+			"corpus: model counterexample search (fs.search: every cut × no/single fault × kill and power-loss images) on the step list regenerated from dbkit/atomic.go, 8 content shapes",
+		Corpus: searchCorpus,
 		Gen: func(r *gen.R, idx int) []run.Case {
 			return crashCase(r, idx)
 		},
